@@ -160,6 +160,8 @@ def ellipsis_vs_written_out(case):
     """an ellipsis = its written-out repetition; tuple sizes = one keyword per repetition."""
     if not case.reps:
         return []
+    if case.opts.get("keepdims") and any(r == 0 for r in case.reps.values()):
+        return []  # keepdims counts bracket expressions; a bracket emptied by a zero-repetition ellipsis cannot be written out
     taken = set()
     newname = {}
 
